@@ -36,4 +36,15 @@ CHECKS = {
                 "Non-trivial: truncated/corrupted/valid input or spare capacity. Thorough adds native coverage-guided fuzzing.",
         "assumptions": COMMON_ASSUME + ["runtime.MemStats.TotalAlloc delta on a single goroutine with GC parked measures allocation of the call"],
     },
+    "C03": {
+        "quick": 1500, "thorough": 60000,
+        "rule": "rapid draws (direction in server-read/server-write/client-write/client-read, secret of 0..300 arbitrary octets, "
+                "session id edge-biased over uint32, minor 0/1, every sequence number of the direction, flag octet, body length "
+                "0..65536 biased to 16k-1/16k/16k+1 and the limit) and a deterministic sweep of lengths 0..80 + block/limit "
+                "boundaries and of every sequence number; oracle: raw bytes on the scripted connection equal header || cleartext XOR "
+                "model pad (own MD5 chain), received cleartext equals sent cleartext, header/length unaltered, body verbatim with "
+                "the unencrypted flag whatever the two secrets. Non-trivial: length >16 and not a multiple of 16, or >=4096, or "
+                "clear flag with different secrets.",
+        "assumptions": COMMON_ASSUME + ["scripted net.Conn is a faithful connection; client side reached through the verif-tag SetClientConn hook"],
+    },
 }
